@@ -142,6 +142,52 @@ def check_inplace_case(case, acc):
             return
 
 
+def check_rebind_case(case, acc):
+    """the package default configuration is REPLACED by a site configuration that masks an element
+    (config['bit_config'] = new dict, what applying a loaded configuration does); decoding without iso_config - through
+    loads and through the IPM reader - must follow the configuration in force at the time of each call"""
+    import io
+    from cardutil import iso8583, mciipm, config as libconfig
+    from vf.ref import vbs_ref
+    original = libconfig.config['bit_config']
+    base = copy.deepcopy(isogen.get_cfg('PKG'))
+    bit, enc = case['bit'], case['enc']
+    base[str(bit)].pop('field_processor', None)
+    pan = isogen.digits(case['len'], case.get('seed', 0) + bit)
+    data, _ = iso_ref.encode({'MTI': '1240', 'DE%d' % bit: pan, 'DE49': '036'}, base, enc, False)
+    n = len(pan)
+    acc.case(('rebind', bit, case['len'], enc, tuple(case['steps']), case['via']), nontrivial=True, outcome='rebind')
+    try:
+        for i, proc in enumerate(case['steps']):
+            site = copy.deepcopy(base)
+            if proc is None:
+                want = pan
+            else:
+                site[str(bit)]['field_processor'] = proc
+                want = (pan[:6] + '*' * (n - 10) + pan[-4:]) if proc == 'PAN' else pan[:9]
+            if case.get('how') == 'update':
+                libconfig.config.update({'bit_config': site})
+            else:
+                libconfig.config['bit_config'] = site
+            try:
+                if case['via'] == 'loads':
+                    out = iso8583.loads(data, encoding=enc)
+                else:
+                    out = list(mciipm.IpmReader(io.BytesIO(vbs_ref.frame([data, data])), encoding=enc))[1]
+            except Exception as ex:
+                acc.viol('c16.rebind.exception', case, repr(ex), 'dict')
+                return
+            got = out.get('DE%d' % bit)
+            if got != want or (proc and n >= 11 and any(pan in str(v) for v in out.values())):
+                sig = 'c16.rebind.disclosure' if (proc and pan in ''.join(str(v) for v in out.values())) \
+                    else 'c16.rebind.value'
+                acc.viol(sig, case, 'step %d (processor %s): %r' % (i + 1, proc, got), want,
+                         'a new configuration object was installed as the package default before the decode')
+                return
+    finally:
+        libconfig.config['bit_config'] = original
+
+
 def tasks(tier, seed):
     ts = []
     mask_cases = []
@@ -201,6 +247,20 @@ def tasks(tier, seed):
                                     'enc': 'cp500' if (bit + oi) % 2 else 'latin_1', 'steps': steps, 'seed': seed})
     for ch in core.chunks(inplace, 16):
         ts.append({'cases': ch})
+    rebind = []
+    pkg = isogen.get_cfg('PKG')
+    for bit in isogen.bits_of('PKG'):
+        if iso_ref.prefix_len(pkg[str(bit)]) != 2 or pkg[str(bit)].get('field_processor') or \
+                pkg[str(bit)].get('field_python_type'):
+            continue
+        for oi, steps in enumerate(orders):
+            for n in (16, 19) if oi else (11, 16, 19):
+                for via in ('loads', 'reader'):
+                    rebind.append({'kind': 'rebind', 'bit': bit, 'len': n, 'enc': 'cp500' if (bit + oi) % 2 else
+                                   'latin_1', 'steps': steps, 'via': via, 'how': 'update' if oi % 2 else 'assign',
+                                   'seed': seed})
+    for ch in core.chunks(rebind, 8):
+        ts.append({'cases': ch})
     return ts
 
 
@@ -218,6 +278,8 @@ def replay_into(case, acc):
         check_mask_case(case, acc)
     elif case['kind'] == 'inplace':
         check_inplace_case(case, acc)
+    elif case['kind'] == 'rebind':
+        check_rebind_case(case, acc)
     else:
         check_decode_case(case, acc)
 
